@@ -97,6 +97,8 @@ def run(rep, tier, seed):
                           "tag": "op %s %s %s" % (c["op"], c["ta"].split(":")[0], c["tb"].split(":")[0])})
     for tag, prog in scenarios():
         items.append({"id": "s" + tag, "prog": prog, "tag": "scenario " + tag})
+    for k, (tag, prog) in enumerate(format_strings(tier)):
+        items.append({"id": "f%d" % k, "prog": prog, "tag": tag})
     rnd = random.Random(seed)
     for i in range(800 if tier == "quick" else 20000):
         items.append({"id": "r%d" % i, "prog": random_program(rnd, depth=3, features={"shadow": True}), "tag": "random-program"})
@@ -113,17 +115,38 @@ def run(rep, tier, seed):
                                                        for it, out, v in bad if out["how"] not in CRASH})[:60]
     machine_model_check(rep, [it for it in items if it["tag"] == "random-program"][:150 if tier == "quick" else 1500]
                         + [it for it in items if it["tag"].startswith("builtin")][::(40 if tier == "quick" else 8)])
-    n_e2e = end_to_end(rep, tier, rnd)
+    n_e2e = end_to_end(rep, tier, rnd) + packet_totality(rep, tier, rnd)
     rep.cov["distinct_nontrivial"] = len({it["tag"] for it in items}) + n_e2e
     rep.cov["rule"] = ("in-process: TLC-enumerated builtin calls (and operator table in thorough), resource-bound scenarios "
                        "(recursion depth around MAX_FRAMES, locals, literals around STACK_SIZE, 255 call arguments), hostile "
-                       "boundary operations, seeded random programs; the machine specification model-checked on the compiled code of a "
+                       "boundary operations, every format string over the mini-language's characters up to length 4 (5), seeded random "
+                       "programs; structure-aware random frames cut at every boundary through filter-mode programs that print "
+                       "and write every layer; the machine specification model-checked on the compiled code of a "
                        "part of them; end to end: exit(n), filter-mode families with packet "
                        "input; distinct = distinct case tags; a case is non-trivial if it executes at least one operator, "
                        "builtin or call (all do)")
     rep.cov["exhaustive"] = False
     for it in items[:1]:
         rep.sample({"src": it["src"], "out": it["out"]})
+
+
+def format_strings(tier):
+    """every string over the characters of the format mini-language up to length 4 (thorough: 5) as the format of
+    format / println with 0-2 arguments: whatever the string, the call ends in a value or a runtime error"""
+    import itertools
+    alphabet = "{}:<>05xa "
+    out = []
+    argsets = [[], [I(7)], [lit(vstr("s")), I(-3)]]
+    n = 0
+    for k in range(0, (5 if tier == "quick" else 6)):
+        for t in itertools.product(alphabet, repeat=k):
+            text = "".join(t)
+            args = argsets[n % 3]
+            fn_ = "format" if n % 5 else "eprint"
+            out.append(("format-string len=%d args=%d via=%s" % (k, len(args), fn_),
+                        [OBS_DECL, obs(call(fn_, lit(vstr(text)), *args))]))
+            n += 1
+    return out
 
 
 def machine_model_check(rep, its):
@@ -215,6 +238,48 @@ def filter_matrix():
         for fname, ft in filters.items():
             out.append(("matrix place=%s filter=%s" % (pn, fname), pt % ft, "terminal"))
     return out
+
+
+def packet_totality(rep, tier, rnd):
+    """structure-aware random frames, cut at every layer boundary +-1 and inside every header, through filter mode with a
+    program that touches, prints and writes every layer: no frame makes the interpreter crash"""
+    from .. import pkt
+    frames = []
+    for _ in range(60 if tier == "quick" else 600):
+        frame, layers = pkt.build_frame(rnd)
+        for cut in sorted(pkt.truncations(frame, layers)):
+            frames.append(frame[:cut])
+    progs_ = {
+        "print-layers": '@ true { eprintln("{} {} {} {} {}", $0, $1, $2, $3, $4); }\n',
+        "print-reverse": '@ true { eprintln("{}", $4); eprintln("{}", $3); eprintln("{}", $2); eprintln("{}", $1); }\n',
+        "touch-then-write": "@ $3 != 0 || true\n",
+        "named-paths": '@ true { let e = $1; eprintln("{} {} {}", e.ipv4, e.ipv6, e.vlan); let i = e.ipv4; '
+                       'if i != null && !is_error(i) { eprintln("{} {} {}", i.tcp, i.udp, i.payload); } }\n@ true\n',
+        "payloads": '@ true { let a = $2; if a != null && !is_error(a) { eprintln("{}", len(a.payload)); } '
+                    'let b = $3; if b != null && !is_error(b) { eprintln("{}", len(b.payload)); } }\n@ true\n',
+    }
+    jobs = []
+    tags = []
+    per = 150
+    for name, src in progs_.items():
+        for k in range(0, len(frames), per):
+            cap = pcapfmt.pcap_file(frames[k:k + per])
+            jobs.append((["-c", src], cap))
+            tags.append("%s frames %d-%d" % (name, k, k + per))
+    n = 0
+    for tag, (args, cap), r in zip(tags, jobs, e2e.run_many(jobs)):
+        n += 1
+        rep.cov["evaluations"] += 1
+        if r["how"] != "exit":
+            loc = ""
+            import re as _re
+            m = _re.search(rb"panicked at ([^\n]*)", r["err"])
+            if m:
+                loc = m.group(1).decode("utf8", "replace")[:80]
+            rep.disagree("e2e packet-totality %s %s %s" % (tag.split(" ")[0], r["how"], loc),
+                         {"program": args[1], "frames": tag, "stderr": r["err"].decode("utf8", "replace")[-400:]})
+    rep.notes["packet_totality_frames"] = len(frames)
+    return n
 
 
 def end_to_end(rep, tier, rnd):
